@@ -162,16 +162,16 @@ func main() {
 	var knownMatched []string
 	var undecided []string
 	var vacuous []string
-	for _, u := range units {
-		if u.Err != "" {
-			undecided = append(undecided, fmt.Sprintf("%s: %s", u.Unit, u.Err))
-		}
-	}
 	for _, c := range covers {
 		if c.Status == "vacuous" {
 			if c.Kind == "vacuity" {
 				vacuous = append(vacuous, c.Name)
 			}
+		}
+	}
+	for _, u := range units {
+		if u.Err != "" {
+			undecided = append(undecided, fmt.Sprintf("%s: %s", u.Unit, u.Err))
 		}
 	}
 	sort.Slice(obls, func(i, j int) bool { return obls[i].Name < obls[j].Name })
@@ -181,6 +181,10 @@ func main() {
 		}
 		if o.Status == "discharged" {
 			nDis++
+			continue
+		}
+		if o.Status == "error" {
+			undecided = append(undecided, fmt.Sprintf("%s: solver rejected the generated query (engine defect): %s", o.Name, firstLines(o.Output, 2)))
 			continue
 		}
 		// known finding?
